@@ -276,15 +276,15 @@ func checkGenerator(c *Ctx, gen *ssa.Function) {
 			c.bad("SHAPE-GEN", spec.name, rets[0].Pos(), "returned Table has no "+spec.fld+" built in this function")
 			continue
 		}
-		apps := ft.findAll(func(x *Term) bool { return x.isCall("builtin:append") })
+		apps := topAppendSites(ft)
 		good := len(apps) == 1
 		msg := fmt.Sprintf("%d append sites feed %s, want 1", len(apps), spec.fld)
 		if good {
 			a := apps[0]
-			blk := a.V.(ssa.Instruction).Block()
+			blk := a.At.Block()
 			pc := pathCond(tb, headBlock, blk).String()
 			wantPC := "binop[==](const[" + spec.mark + "], index(param[1], " + wantIdx + "))"
-			carries := a.Args[1].contains(func(x *Term) bool { return x.String() == triplet.String() })
+			carries := a.Elem.String() == triplet.String()
 			if pc != wantPC || !carries {
 				good = false
 				msg = fmt.Sprintf("append to %s happens under %s (want %s), carries triplet=%v", spec.fld, short(pc), wantPC, carries)
@@ -296,9 +296,9 @@ func checkGenerator(c *Ctx, gen *ssa.Function) {
 	at := field("AminoAcids")
 	good := false
 	if at != nil {
-		apps := at.findAll(func(x *Term) bool { return x.isCall("builtin:append") })
+		apps := topAppendSites(at)
 		if len(apps) == 1 {
-			e := apps[0].Args[1]
+			e := apps[0].Elem
 			l := e.contains(func(x *Term) bool {
 				return x.Op == "partial" && x.Name == ".Letter" && strings.HasPrefix(x.Args[0].String(), "conv[string](extract[1](next(range(makemap[")
 			})
